@@ -69,7 +69,7 @@ M = [
     ("C03", "credit-shifted-by-one", INC, "                marginal_contributions[feature] = marginal_contribution\n",
      "                marginal_contributions[permutation_chain[\n                    (permutation_chain.index(feature) + 1) % len(permutation_chain)]] = marginal_contribution\n"),
     ("C03", "complement-not-taken", INC, "                    feature_subset=features_not_in_s,\n",
-     "                    feature_subset=set(self.feature_names) - features_not_in_s,\n"),
+     "                    feature_subset=[name for name in self.feature_names if name not in features_not_in_s],\n"),
     ("C03", "mean-of-losses", INC, "                y = _get_mean_model_output(predictions)\n                feature_loss = _loss_value(self._loss_function(y_i, y))\n",
      "                feature_loss = sum(self._loss_function(y_i, p) for p in predictions) / len(predictions)\n"),
     ("C03", "unnormalised-marginal-prediction", INC, "marginal_prediction = marginal_prediction_tracker.get_normalized()",
@@ -118,7 +118,7 @@ M = [
     ("C06", "instance-mutated-in-place", DEFI, "        prediction = self.model_function({**x_i, **sampled_values})\n",
      "        if len(sampled_values) == len(x_i):\n            x_i.update(sampled_values)\n        prediction = self.model_function({**x_i, **sampled_values})\n"),
     ("C06", "stored-row-mutated", MARG, "        sampled_instance = features[rand_idx].copy()\n        sampled_features = {feature_name: sampled_instance[feature_name]\n                            for feature_name in feature_subset}\n",
-     "        sampled_instance = features[rand_idx]\n        sampled_features = {feature_name: sampled_instance[feature_name]\n                            for feature_name in feature_subset}\n        if len(sampled_features) == 0 and len(features) > 4:\n            sampled_instance.clear()\n"),
+     "        sampled_instance = features[rand_idx]\n        sampled_features = {feature_name: sampled_instance[feature_name]\n                            for feature_name in feature_subset}\n        if len(sampled_features) == len(sampled_instance) and len(features) > 4:\n            sampled_instance.clear()\n"),
     # ---- C07 ---------------------------------------------------------------------------------------
     ("C07", "target-to-other-slot", GEO, "                    self._storage_y[rand_idx] = y\n", "                    self._storage_y[rand_idx - 1] = y\n"),
     ("C07", "interval-none-targets-skipped", IVS, "            self._storage_x.append(x)\n            if self.store_targets:\n                self._storage_y.append(y)\n        else:",
